@@ -100,6 +100,10 @@ type Frame struct {
 	ordinals map[ssa.Instruction]anchorID
 	loopOrd  map[*ssa.BasicBlock]int
 	entered  map[*ssa.BasicBlock]bool // loop headers already cut on this path
+	// lazy: variables whose defining DebugRef carried the zero placeholder
+	// go/ssa emits before the right-hand side is built; bound to the single
+	// SSA value every other reference to the variable names, once computed.
+	lazy map[string]ssa.Value
 }
 
 type anchorID struct {
@@ -218,6 +222,12 @@ func (f *Frame) clone() *Frame {
 	for k, v := range f.varAddr {
 		n.varAddr[k] = v
 	}
+	if len(f.lazy) > 0 {
+		n.lazy = make(map[string]ssa.Value, len(f.lazy))
+		for k, v := range f.lazy {
+			n.lazy[k] = v
+		}
+	}
 	n.defers = append([]deferred(nil), f.defers...)
 	n.entered = make(map[*ssa.BasicBlock]bool, len(f.entered))
 	for k, v := range f.entered {
@@ -298,4 +308,15 @@ func joinNonEmpty(sep string, xs ...string) string {
 		}
 	}
 	return strings.Join(ys, sep)
+}
+
+// resolveLazy binds pending variable definitions whose value now exists.
+func (f *Frame) resolveLazy() {
+	for n, v := range f.lazy {
+		if val, ok := f.env[v]; ok {
+			f.vars[n] = val
+			delete(f.varAddr, n)
+			delete(f.lazy, n)
+		}
+	}
 }
